@@ -225,7 +225,7 @@ func char(s string, position int) string {
 	c := ""
 
 	if position < len(s) {
-		c = string(s[position])
+		c = s[position : position+1]
 	}
 	return c
 }
